@@ -63,6 +63,14 @@ func facetConc(args []string) error {
 			results = append(results, runGoag(*work, rsp.Gen))
 		}
 	}
+	// one package per shard from the JSON corpus (maps, allOf, oneOf with and without discriminator, untyped
+	// values): not driven concurrently here, but its code is part of what the shared-state scan reads
+	{
+		env := genJSONEnv(rng.Fork(), jsonFeats{addl: true, inlineObj: true, allOf: true, nullablePrim: true, oneOf: true, anyType: true})
+		g := GenSpec{Name: fmt.Sprintf("c%02d_json", *shard), Spec: env.specDoc(), Ext: "json", DoNotEdit: true, Client: *shard%2 == 0}
+		items = append(items, item{kind: "scan-only", rs: routeSpec{Gen: g}})
+		results = append(results, runGoag(*work, g))
+	}
 	buildRace = true
 	raceLog := filepath.Join(*work, "race")
 	batchEnv = []string{"GORACE=log_path=" + raceLog + " halt_on_error=0 exitcode=0 history_size=2", "GOMEMLIMIT=12GiB"}
@@ -85,6 +93,9 @@ func facetConc(args []string) error {
 			continue
 		}
 		stats["specs_"+it.kind]++
+		if it.kind == "scan-only" {
+			continue
+		}
 		crng := rng.Fork()
 		if it.kind == "client" {
 			var calls []map[string]any
